@@ -956,7 +956,7 @@ def _check_trace(w, home, run_no):
                                  f'dispatched {want[i] if i < len(want) else None}')
 
 
-def run_e2(spec, monitor_factory, path, prefix_ok=False, trace=False):
+def run_e2(spec, monitor_factory, path, prefix_ok=False, trace=False, lenient=False):
     '''Replay a choice list through the REAL System.simulate() -- several consecutive calls when the path splits
     the run.  Returns the final digest (hex).  Violations propagate as mc.Violation; a path that does not fit the
     run is a HarnessError.'''
@@ -998,10 +998,25 @@ def run_e2(spec, monitor_factory, path, prefix_ok=False, trace=False):
                 e.mc_steps = state['n']
             raise
 
+    pushback = []
+
     def shim():
-        label = take()
+        label = pushback.pop() if pushback else take()
         if label[0] in ('xop', 'resume'):
             raise HarnessError(f'replay: {label} recorded while the real run is still in progress')
+        if lenient and label[0] == 'ev':
+            # regression artefacts must survive benign changes of the library (an extra event at the same instant):
+            # if the recorded event is not dispatchable yet, dispatch what is (canonical order) and try again
+            keys = [repr(canon.event_key(e)) for e in canon.tie_group(w.env)]
+            if label[1] not in keys:
+                t = float(eval(label[1])[0])
+                if w.env._events and w.env._events[0].time <= t and state.get('skips', 0) < 200:
+                    state['skips'] = state.get('skips', 0) + 1
+                    pushback.append(label)
+                    do(('ev', sorted(keys)[0]))
+                    return
+                do(('ev', sorted(keys)[0]))       # the recorded event no longer exists: drop it
+                return
         do(label)
 
     saved = (Asset._id_counter, System._instance)
